@@ -186,6 +186,18 @@ CLAIMED["C10"] = dict(
          "truncation inside a record line (a cut number is a shorter valid number: the formats carry no terminator/checksum).",
 )
 
+CLAIMED["C06"] = dict(
+    text="Proof per copy route (copy constructors of Promolecule/Connectivity/CartesianGeometry/Structure/Molecule/ConformerEnsemble, "
+         "Atom.evolve/Bond.evolve, pickle/deepcopy through the real __getstate__/__setstate__, concatenate and `|`): every observable "
+         "field of the result equals the source's (all atom and bond fields, attributes, coordinates, charges, weights), parents and "
+         "indices are defined and right, and the footprints (every mutable object reachable through atoms, bonds, attribute "
+         "dictionaries and arrays) of result and source are disjoint by object identity -- hence no mutation of one side can change the other.",
+    ref="DESIGN.md section 3 C06",
+    note="pickle/deepcopy via an explicit protocol model (trusted); sizes fixed (3 atoms, 2 bonds, 2 conformers), values symbolic; "
+         "mutation-after-copy follows from footprint disjointness plus the mutators' frames (C05/C14/C16), not re-executed per mutation; "
+         "objects stored *inside* attrib dictionaries are out of scope; join's footprint is covered in C12 (sources untouched).",
+)
+
 NOT_APPLICABLE = {
 }
 
